@@ -156,19 +156,29 @@ def inorder_sub(node):
     return out
 
 
-def step_event(t0, name, opt, rule, k, text="", own_tree=False):
+def step_event(t0, name, opt, rule, k, text="", own_tree=False, in_place=None):
     objs = project.ObjTable()
-    src = t0 if own_tree else t0.clone()      # own_tree: the caller's very tree (with whatever bookkeeping earlier calls left on its nodes)
-    nd = inorder(src)[k]
-    # the realistic flow: ask on the tree, clone the node from the root, apply on the clone
-    try:
-        if not rule.can_apply_to(nd):
+    if in_place is not None:
+        # a caller that keeps ONE tree and applies on the very node it asked about (no clone in between): the reference
+        # ("source") is a copy taken now, the tree worked on is the caller's own
+        nd = in_place
+        src = nd.get_root().clone()
+        project.absorb(objs, [src])
+        work = nd
+        wroot = nd.get_root()
+        k = next((i for i, n in enumerate(inorder(wroot)) if n is work), -1)
+    else:
+        src = t0 if own_tree else t0.clone()      # own_tree: the caller's very tree (with whatever bookkeeping earlier calls left on its nodes)
+        nd = inorder(src)[k]
+        # the realistic flow: ask on the tree, clone the node from the root, apply on the clone
+        try:
+            if not rule.can_apply_to(nd):
+                return None, None
+        except BaseException:  # noqa  (reported by the probe event)
             return None, None
-    except BaseException:  # noqa  (reported by the probe event)
-        return None, None
-    project.absorb(objs, [src])
-    work = nd.clone_from_root()
-    wroot = work.get_root()
+        project.absorb(objs, [src])
+        work = nd.clone_from_root()
+        wroot = work.get_root()
     kw = next((i for i, n in enumerate(inorder(wroot)) if n is work), -1)
     hb = project.snapshot(objs, [src, wroot])
     ev = {"typ": "step", "rule": name, "opt": opt, "text": text, "k": k, "kw": kw, "hb": slim(hb), "src": objs.of(src), "work": objs.of(wroot),
@@ -193,6 +203,10 @@ def step_event(t0, name, opt, rule, k, text="", own_tree=False):
         return ev, None
     ev["ha"] = slim(project.snapshot(objs, [result_root]))
     ev["res"] = objs.of(result_root)
+    try:
+        ev["rn"] = objs.of(res)               # the node the change names as its result (the root of the result tree when the root was rewritten)
+    except BaseException:  # noqa
+        ev["rn"] = 0
     if k % 2 == 0:
         # what a caller showing the result does first; reading must not change what str() gives afterwards
         small = len(inorder(result_root)) <= 40
@@ -521,6 +535,50 @@ def _events_for_text(job):
                     if ev is not None:
                         ev["second"] = [text, name1, k1, "inplace"]
                         out.append(ev)
+            # ... and the order of events in which anything a rule object remembers about "the node I was asked about last" goes
+            # stale: every rule object is asked about an ancestor of the target, the first step re-links the nodes below that
+            # ancestor in place, and each rule object that now accepts the very same ancestor object is applied to it - in place,
+            # without another question in between. The step is judged like any other (against a copy taken just before it).
+            for up in (1, 2):
+                try:
+                    tree = t0.clone()
+                    target = inorder(tree)[k1]
+                    anc = target
+                    for _ in range(up):
+                        anc = anc.parent if anc is not None else None
+                    if anc is None:
+                        continue
+                    accepted = []
+                    for name, opt, rule in persistent:
+                        if rule is rule1:
+                            continue
+                        t2 = tree.clone()
+                        nodes2 = inorder(t2)
+                        tgt2, anc2 = nodes2[k1], nodes2[inorder(tree).index(anc)]
+                        try:
+                            rule.can_apply_to(anc2)                     # the last node this rule object was asked about
+                        except BaseException:  # noqa
+                            pass
+                        try:
+                            if not rule1.can_apply_to(tgt2):
+                                break
+                            rule1.apply_to(tgt2)                        # re-links nodes below anc2 in place
+                        except BaseException:  # noqa
+                            break
+                        if anc2.get_root() is not t2.get_root() or not any(n is anc2 for n in inorder(anc2.get_root())):
+                            continue                                    # the ancestor did not survive the first step
+                        try:
+                            ok = bool(rule.can_apply_to(anc2))
+                        except BaseException:  # noqa
+                            ok = False
+                        if not ok:
+                            continue
+                        ev, _ = step_event(None, name, opt, rule, -1, "%s  =[in place %s@%d, then the ancestor asked about before]=>  %s" % (text, name1, k1, str(anc2.get_root())), in_place=anc2)
+                        if ev is not None:
+                            ev["second"] = [text, name1, k1, "inplace-ancestor", up]
+                            out.append(ev)
+                except BaseException:  # noqa
+                    pass
     return out
 
 
